@@ -185,7 +185,8 @@ def putVals {α} (vals : NDArr α) (pix : List PosIx) (vget : List Nat → α) :
 
 /-- NumPy's resolution of the per-dimension indices of an assignment.  NumPy does not bounds-check
 integer index arrays when the (outer) selection is empty: scalars and slices are always resolved,
-arrays only when every dimension selects something. -/
+arrays only when every dimension selects something (otherwise only their length matters: it
+still enters the shape the right-hand side is broadcast to, and no cell is written). -/
 def putIndices (axes : List Axis) (raw : List RawIx) : Except Err (List PosIx) :=
   let anyEmpty := (raw.zip axes).any fun (r, ax) =>
     match r with
@@ -195,8 +196,8 @@ def putIndices (axes : List Axis) (raw : List RawIx) : Except Err (List PosIx) :
     | .int _ => false
   (raw.zip axes).mapM fun (r, ax) =>
     match r with
-    | .ints _ => if anyEmpty then pure (PosIx.list []) else resolveRaw r ax.size
-    | .mask _ => if anyEmpty then pure (PosIx.list []) else resolveRaw r ax.size
+    | .ints l => if anyEmpty then pure (PosIx.list (l.map fun _ => 0)) else resolveRaw r ax.size
+    | .mask m => if anyEmpty then pure (PosIx.list ((nonzero m).map fun _ => 0)) else resolveRaw r ax.size
     | _ => resolveRaw r ax.size
 
 /-- the assigned value as a function of the selection coordinate (NumPy broadcasting) -/
